@@ -581,6 +581,8 @@ type vfC13Conn struct {
 	sys          *vfC13Sys
 	name         string
 	raddr        ma.Multiaddr
+	rp           peer.ID       // the authenticated remote; zero: R
+	rpk          crypto.PubKey // its key
 	limited      bool
 	mu           sync.Mutex
 	closed       bool
@@ -590,8 +592,18 @@ type vfC13Conn struct {
 }
 
 func (c *vfC13Conn) LocalPeer() peer.ID             { return vfC13G.idL }
-func (c *vfC13Conn) RemotePeer() peer.ID            { return vfC13G.idR }
-func (c *vfC13Conn) RemotePublicKey() crypto.PubKey { return vfC13G.privR.GetPublic() }
+func (c *vfC13Conn) RemotePeer() peer.ID {
+	if c.rp != "" {
+		return c.rp
+	}
+	return vfC13G.idR
+}
+func (c *vfC13Conn) RemotePublicKey() crypto.PubKey {
+	if c.rpk != nil {
+		return c.rpk
+	}
+	return vfC13G.privR.GetPublic()
+}
 func (c *vfC13Conn) ConnState() network.ConnectionState {
 	return network.ConnectionState{StreamMultiplexer: "/yamux/1.0.0", Security: "/noise", Transport: "tcp"}
 }
@@ -632,12 +644,8 @@ func (n *vfC13Net) LocalPeer() peer.ID               { return vfC13G.idL }
 func (n *vfC13Net) Peerstore() peerstore.Peerstore   { return n.sys.ps }
 func (n *vfC13Net) Notify(f network.Notifiee)        { n.sys.notifiees = append(n.sys.notifiees, f) }
 func (n *vfC13Net) StopNotify(f network.Notifiee)    {}
-func (n *vfC13Net) Conns() []network.Conn            { return n.ConnsToPeer(vfC13G.idR) }
-func (n *vfC13Net) ConnsToPeer(p peer.ID) []network.Conn {
+func (n *vfC13Net) Conns() []network.Conn {
 	var out []network.Conn
-	if p != vfC13G.idR {
-		return nil
-	}
 	for _, name := range n.sys.order {
 		if c := n.sys.conns[name]; c != nil && !c.IsClosed() {
 			out = append(out, c)
@@ -645,11 +653,25 @@ func (n *vfC13Net) ConnsToPeer(p peer.ID) []network.Conn {
 	}
 	return out
 }
-func (n *vfC13Net) Peers() []peer.ID {
-	if len(n.ConnsToPeer(vfC13G.idR)) > 0 {
-		return []peer.ID{vfC13G.idR}
+func (n *vfC13Net) ConnsToPeer(p peer.ID) []network.Conn {
+	var out []network.Conn
+	for _, c := range n.Conns() {
+		if c.RemotePeer() == p {
+			out = append(out, c)
+		}
 	}
-	return nil
+	return out
+}
+func (n *vfC13Net) Peers() []peer.ID {
+	seen := map[peer.ID]bool{}
+	var out []peer.ID
+	for _, c := range n.Conns() {
+		if !seen[c.RemotePeer()] {
+			seen[c.RemotePeer()] = true
+			out = append(out, c.RemotePeer())
+		}
+	}
+	return out
 }
 
 // Connectedness is what both address sections read; the harness notes whether addrMu is held at that
@@ -1266,7 +1288,11 @@ func (s *vfC13Sys) mustEnv(rec, ra string) []byte {
 
 // vfC13RecordOK: "" if the envelope validates under the peer-record domain, was sealed by R and is a
 // PeerRecord for R.
-func vfC13RecordOK(e *record.Envelope) string {
+func vfC13RecordOK(e *record.Envelope) string { return vfC13RecordOKFor(e, vfC13G.idR) }
+
+// vfC13RecordOKFor: "" if the envelope validates under the peer-record domain, was sealed by id and is
+// a PeerRecord naming id.
+func vfC13RecordOKFor(e *record.Envelope, id peer.ID) string {
 	b, err := e.Marshal()
 	if err != nil {
 		return "does not marshal"
@@ -1275,14 +1301,14 @@ func vfC13RecordOK(e *record.Envelope) string {
 	if err != nil {
 		return "does not validate: " + err.Error()
 	}
-	if !vfC13G.idR.MatchesPublicKey(env.PublicKey) {
+	if !id.MatchesPublicKey(env.PublicKey) {
 		return "was not signed by the connection's remote"
 	}
 	pr, ok := rec.(*peer.PeerRecord)
 	if !ok {
 		return "is not a peer record"
 	}
-	if pr.PeerID != vfC13G.idR {
+	if pr.PeerID != id {
 		return "names another peer"
 	}
 	return ""
